@@ -88,7 +88,7 @@ func genC08(tier string, r *Rng, emit func(Case)) {
 	exps := []int{-7, -5, -4, -3, -2, -1, 0, 1, 2, 3, 5, 6, 7, 8, 9, 15, 16, 17, 18, 40, -40, 1000, -1000}
 	n := 5000
 	if thorough {
-		n = 80000
+		n = 500000
 	}
 	for i := 0; i < n; i++ {
 		ver := allVers[i%3]
